@@ -132,13 +132,60 @@ def all_cfgs(rail_shapes, carries=("messages",)):
 SC_ID = P.SC_ID
 
 
-def eff_in(case):
-    """Configured input rails in order (the shipped `self check input` is rail SC_ID, configured last)."""
+def eff_in(case, tc=None):
+    """Configured input rails in order (the shipped `self check input` is rail SC_ID, configured last); with a turn: the rails
+    enabled for THAT call (Colang 1.0 `options={"rails": {"input": False}}` switches them off for the call)."""
+    if tc is not None and case["ver"] == "1.0" and tc.get("opts") is not None and not tc["opts"].get("input", True):
+        return []
     return list(case["in"]) + ([SC_ID] if case.get("sc") else [])
 
 
-def eff_out(case):
+def eff_out(case, tc=None):
+    if tc is not None and case["ver"] == "1.0" and tc.get("opts") is not None and not tc["opts"].get("output", True):
+        return []
     return list(case["out"]) + ([SC_ID] if case.get("sc") else [])
+
+
+OPTS = {"noin": {"input": False, "output": True}, "noout": {"input": True, "output": False}, "none": {"input": False, "output": False},
+        "all": {"input": True, "output": True}, None: None}
+OPTS_SEQS = {
+    "in": [["noin", None, None], [None, "noin", None], ["noin", "all", None], ["none", None, "noin", None], ["noin", "noout", None]],
+    "out": [["noout", None, None], [None, "noout", None], ["noout", "all", None], ["none", None, "noout", None], ["noout", "noin", None]],
+}
+
+
+def options_cases(rng, tier, side):
+    """Colang 1.0 conversations (history through `state=` and through messages+cache) whose calls MIX explicit generation
+    options - switching the side's rails off for that one call - with calls that pass NO options (all rails enabled again).
+    In the turns whose rails are enabled, a rail of the side rejects / rewrites, so that a skipped rail shows in the reply."""
+    cases = []
+    rails = {"in": ([0, 1], [0]), "out": ([0], [0, 1])}[side]
+    key = "vin" if side == "in" else "vout"
+    for carry in ("state", "messages"):
+        for dialog in (False, True):
+            for exc in ((False, True) if tier == "thorough" else (False,)):
+                for seq in OPTS_SEQS[side]:
+                    for what in (("r", "w") if tier == "thorough" or carry == "state" else ("r",)):
+                        cfg = {"ver": "1.0", "dialog": dialog, "exc": exc, "in": list(rails[0]), "out": list(rails[1]), "carry": carry, "gen": "std"}
+                        turns = [clean_turn(rng, cfg, k + 1) for k in range(len(seq))]
+                        for k, (t, o) in enumerate(zip(turns, seq)):
+                            t["opts"] = OPTS[o]
+                            rid = (cfg["in"] if side == "in" else cfg["out"])[-1]
+                            v = ["w", rewrite_text(rng, side, k + 1)] if what == "w" else "r"
+                            t[key] = [[i, (v if i == rid else vv)] for i, vv in t[key]]
+                        cfg["turns"] = turns
+                        cases.append(cfg)
+    return cases
+
+
+def random_opts(rng, case, p=0.5):
+    """Give the calls of a generated Colang 1.0 conversation (standard generation mode) random generation options."""
+    if case["ver"] != "1.0" or case.get("gen", "std") != "std":
+        return case
+    for t in case["turns"]:
+        if rng.random() < p:
+            t["opts"] = OPTS[rng.choice(["noin", "noout", "none", "all"])]
+    return case
 
 
 def add_selfcheck(rng, cfg, p_block=0.3):
@@ -148,6 +195,203 @@ def add_selfcheck(rng, cfg, p_block=0.3):
         t["vin"] = [e for e in t["vin"] if e[0] != SC_ID] + [[SC_ID, "r" if rng.random() < p_block * 0.5 else "a"]]
         t["vout"] = [e for e in t["vout"] if e[0] != SC_ID] + [[SC_ID, "r" if rng.random() < p_block else "a"]]
     return cfg
+
+
+# ------------------------------------------------------------------ repeated texts around hidden turns
+#
+# Colang 1.0 keeps TWO views of the variables: the flows' context is rebuilt from the history the flows see (turns hidden by
+# `hide_prev_turn` removed), the actions' context (`compute_context(events)`: rail actions, `text=$bot_message` parameters,
+# `create event …(script=$bot_message)`) is accumulated from ALL ContextUpdate events.  They can only drift apart when a value
+# is *equal* to an older one somewhere ("unchanged, nothing to record") - so the interesting conversations are those in which a
+# turn faults AFTER the variable was set and texts REPEAT across turns (equal to the last visible one, to the hidden one, to an
+# earlier rejected one, to a rewrite).  Rails of both kinds read the variable: action rails (action side) and pure-Colang
+# rails (flow side, ids >= P.PURE_BASE).
+
+PURE = P.PURE_BASE
+
+
+def fix_pure(case):
+    """Pure-Colang rails compute their verdict from the text they see (`if "BLK<i>" in $var`): make the verdict tables say what
+    the texts dictate along the configured chain (entry "r" iff the marker occurs in the text the rail is shown)."""
+    for t in case["turns"]:
+        for key, lst, start in (("vin", case["in"], t["user"]), ("vout", case["out"], t["bot"])):
+            if not any(P.is_pure(r) for r in lst):
+                continue
+            tbl = {i: v for i, v in (t.get(key) or [])}
+            for r in lst:
+                if P.is_pure(r):
+                    tbl[r] = "a"
+            cur = start
+            for r in lst:
+                if P.is_pure(r):
+                    tbl[r] = "r" if P.pure_marker(r) in cur else "a"
+                v = tbl.get(r, "a")
+                if v in ("r", "f"):
+                    break
+                if case["ver"] == "1.0" and is_rewrite(v):
+                    cur = v[1]
+            t[key] = [[i, tbl[i]] for i in sorted(tbl)]
+    return case
+
+
+# one side of a conversation: [(text key, event)]; events:
+#   ok   every rail accepts            f0 / f1  the first / last ACTION rail of the side raises (the variable is already set)
+#   r    the last action rail rejects  w        the first action rail rewrites to a fresh text
+#   w=K  the first action rail rewrites to text K and the last action rail raises   m  the text carries the marker of the pure rail
+#   x    the OTHER stage faults later in the turn (in-side patterns: an output rail raises; the turn is hidden after `$user_message` was used)
+REPEAT_PATTERNS = [
+    [("A", "ok"), ("B", "f1"), ("A", "ok")],               # repeat of the last visible text after a hidden turn
+    [("A", "ok"), ("B", "f1"), ("B", "ok")],               # repeat of the hidden text
+    [("A", "r"), ("B", "f1"), ("A", "ok")],                # repeat of an earlier rejected text
+    [("A", "ok"), ("B", "f0"), ("A", "r")],                # ... which is now rejected
+    [("A", "ok"), ("A", "f1"), ("A", "ok")],               # the same text throughout
+    [("A", "ok"), ("B", "f1"), ("C", "f0"), ("A", "ok")],  # two hidden turns in a row
+    [("A", "ok"), ("B", "f1"), ("A", "ok"), ("B", "ok")],  # and the hidden text once more afterwards
+    [("A", "w"), ("B", "f1"), ("A", "ok")],                # 1.0: rewritten the first time, untouched the second time
+    [("A", "ok"), ("B", "w=A"), ("B", "ok")],              # 1.0: rewritten to the visible text, then a later rail raises
+    [("A", "ok"), ("Bm", "f0"), ("A", "ok")],              # the hidden text is one a pure-Colang rail always rejects
+    [("A", "ok"), ("B", "f1"), ("Am", "ok")],
+    [("A", "ok"), ("B", "x"), ("A", "ok")],
+    [("A", "w"), ("B", "x"), ("A", "w")],
+]
+
+
+# the BOT MESSAGE that repeats is the predefined refusal: an input rail refuses (bot message M), a later turn's LLM text L is
+# hidden by an output-rail fault, then an input rail refuses again - the first `$bot_message` of that turn is M once more
+REFUSAL_REPEAT = [
+    [("A", "r"), ("B", "x"), ("C", "r")],
+    [("A", "r"), ("B", "x"), ("A", "r"), ("B", "ok")],
+    [("A", "ok"), ("B", "r"), ("C", "x"), ("C", "x"), ("A", "r")],
+]
+
+
+def _repeat_side(rng, cfg, turns, side, pattern, events=True):
+    """Impose `pattern` on the `side` ("in": user texts / vin, "out": bot texts / vout) of the clean `turns`."""
+    key, tkey = ("vin", "user") if side == "in" else ("vout", "bot")
+    rails = cfg["in"] if side == "in" else cfg["out"]
+    action_rails = [r for r in rails if not P.is_pure(r)]
+    pure = [r for r in rails if P.is_pure(r)]
+    texts = {}
+    for k, (name, ev) in enumerate(pattern):
+        t = turns[k]
+        base = name.rstrip("m")
+        if base not in texts:
+            texts[base] = t[tkey]
+        txt = texts[base]
+        if name.endswith("m") and pure:
+            txt = txt + " " + P.pure_marker(pure[0])
+        if not (cfg["ver"] == "2.x" and side == "in"):  # 2.x user texts are dictated by the waiting flow
+            t[tkey] = txt
+        tbl = {i: "a" for i in sorted(set(rails))}
+        if not events:
+            continue
+        if action_rails:
+            first, last = action_rails[0], action_rails[-1]
+            if ev == "f0":
+                tbl[first] = "f"
+            elif ev == "f1":
+                tbl[last] = "f"
+            elif ev == "r":
+                tbl[last] = "r"
+            elif ev == "w" and cfg["ver"] == "1.0":
+                tbl[first] = ["w", rewrite_text(rng, side, k + 1)]
+            elif ev.startswith("w=") and cfg["ver"] == "1.0":
+                tbl[first] = ["w", texts.get(ev[2:], txt)]
+                if last != first:
+                    tbl[last] = "f"
+        if ev == "x":
+            other = "vout" if side == "in" else "vin"
+            orails = [r for r in (cfg["out"] if side == "in" else cfg["in"]) if not P.is_pure(r)]
+            if orails:
+                t[other] = [[i, ("f" if i == orails[-1] else v)] for i, v in t[other]]
+            elif cfg["dialog"]:
+                t["intent"], t["act_fault"] = "act", True
+                if cfg["ver"] == "2.x":
+                    t["user"] = ACT_TEXT
+        t[key] = [[i, tbl[i]] for i in sorted(tbl)]
+
+
+REPEAT_RAILS = {
+    "out": [([], [0, 1]), ([0], [0, PURE]), ([], [PURE, 0])],
+    "in": [([0, 1], [0]), ([0, PURE], [0]), ([PURE, 0], [0])],
+}
+
+
+def repeat_cases(rng, tier, side, patterns=None):
+    """Conversations (>= 3 turns, history shared through messages+cache AND through state) in which some turn faults after the
+    side's variable was set and the texts of the side repeat across turns; `side` = "in" | "out" | "both" (same pattern on both)."""
+    cases = []
+    pats = patterns if patterns is not None else REPEAT_PATTERNS
+    sides = ("in", "out") if side == "both" else (side,)
+    shapes = REPEAT_RAILS["out" if side == "both" else side]
+    for ver in ("1.0", "2.x"):
+        for dialog in (False, True):
+            for exc in ((False, True) if tier == "thorough" else (False,)):
+                for carry in (("messages", "state") if ver == "1.0" else ("state",)):
+                    for n, (ins, outs) in enumerate(shapes):
+                        if ver == "2.x" and (any(P.is_pure(r) for r in ins + outs)):
+                            continue
+                        if side == "both":
+                            ins = [0]
+                        if not fits(ver, dialog, len(ins), len(outs)):
+                            continue
+                        for pi, pat in enumerate(pats):
+                            has_pure = any(P.is_pure(r) for r in ins + outs)
+                            marker = any(nm.endswith("m") for nm, _ in pat)
+                            if marker and not has_pure:
+                                continue
+                            if has_pure and not marker and pi >= 2:
+                                continue  # pure-rail shapes run the marker patterns and the first two plain ones
+                            if ver == "2.x" and any(ev.startswith("w") for _, ev in pat):
+                                continue
+                            if tier == "quick" and carry == "state" and pi >= 5 and not has_pure:
+                                continue
+                            cfg = {"ver": ver, "dialog": dialog, "exc": exc, "in": list(ins), "out": list(outs), "carry": carry}
+                            if ver == "2.x" and not dialog:
+                                cfg["usaid"] = "something"
+                            turns = [clean_turn(rng, cfg, k + 1) for k in range(len(pat))]
+                            for sd in sides:
+                                # "both": the user texts repeat like the LLM texts, the events happen in the output stage
+                                _repeat_side(rng, cfg, turns, sd, pat, events=(side != "both" or sd == "out"))
+                            cfg["turns"] = turns
+                            cases.append(fix_pure(cfg))
+    return cases
+
+
+def collapse_texts(rng, case, p_bot=0.5, p_user=0.3, p_rw=0.3):
+    """Make the texts of a generated conversation repeat: a later turn's LLM text / user text / rewrite text is replaced by one
+    that already occurred (as LLM text, user text or rewrite) in an earlier turn."""
+    ts = case["turns"]
+    for k in range(1, len(ts)):
+        t = ts[k]
+        j = rng.randrange(k)
+        if rng.random() < p_bot:
+            pool = [ts[j]["bot"]] + [v[1] for _, v in ts[j].get("vout") or [] if is_rewrite(v)]
+            t["bot"] = rng.choice(pool)
+        if case["ver"] == "1.0" and rng.random() < p_user:
+            pool = [ts[j]["user"]] + [v[1] for _, v in ts[j].get("vin") or [] if is_rewrite(v)]
+            t["user"] = rng.choice(pool)
+        for key, src in (("vin", "user"), ("vout", "bot")):
+            for e in t.get(key) or []:
+                if is_rewrite(e[1]) and rng.random() < p_rw:
+                    e[1] = ["w", ts[j][src]]
+    return fix_pure(case)
+
+
+def purify(rng, case, side, p_marker=0.35):
+    """Colang 1.0: make the last rail of the side a pure-Colang rail (verdict computed by the flow from the text) and let some
+    texts carry its marker."""
+    lst = case["in"] if side == "in" else case["out"]
+    if case["ver"] != "1.0" or not lst or lst.count(lst[-1]) > 1 or case.get("sc"):
+        return case
+    old = lst[-1]
+    lst[-1] = PURE
+    key, tkey = ("vin", "user") if side == "in" else ("vout", "bot")
+    for t in case["turns"]:
+        t[key] = [[(PURE if i == old else i), v] for i, v in t.get(key) or []]
+        if rng.random() < p_marker:
+            t[tkey] = t[tkey] + " " + P.pure_marker(PURE)
+    return fix_pure(case)
 
 
 def sort_cases(cases):
@@ -165,7 +409,31 @@ def run_impl(case):
     return {"turns": P.run_conversation(case)}
 
 
+def ctx_applicable(case):
+    """The event-level model of the two contexts (`Models/PipelineCtx.lean`, driver op C02.ctx) covers Colang 1.0 with rail flows
+    that stop after they blocked (all generated ones but the `nostop_*` corpus cases)."""
+    return case["ver"] == "1.0" and not case.get("nostop_in") and not case.get("nostop_out")
+
+
+def ctx_request(case):
+    def dialog_fault(t):
+        if not case["dialog"]:
+            return False
+        return bool(t.get("retr_fault")) or (t.get("intent") == "act" and bool(t.get("act_fault")))
+
+    return {
+        "m": "C02.ctx", "drop": False,
+        "in": [[r, P.is_pure(r)] for r in eff_in(case)], "out": [[r, P.is_pure(r)] for r in eff_out(case)],
+        "turns": [{"user": t["user"], "bot": t["bot"], "vin": t.get("vin", []), "vout": t.get("vout", []), "dialog_fault": dialog_fault(t),
+                   "no_in": not eff_in(case, t) and bool(eff_in(case)), "no_out": not eff_out(case, t) and bool(eff_out(case))} for t in case["turns"]],
+    }
+
+
 def model_requests(case, obs, method="C01.conv"):
+    return _conv_requests(case, method) + ([ctx_request(case)] if ctx_applicable(case) else [])
+
+
+def _conv_requests(case, method):
     return [{
         "m": method,
         "ver": case["ver"],
@@ -173,7 +441,9 @@ def model_requests(case, obs, method="C01.conv"):
                 "single_call": case["ver"] == "1.0" and case.get("gen") == "single",
                 "nostop_in": case.get("nostop_in", []), "nostop_out": case.get("nostop_out", [])},
         "turns": [{"user": t["user"], "bot": t["bot"], "intent": t.get("intent", "free"), "vin": t.get("vin", []), "vout": t.get("vout", []),
-                   "act_fault": bool(t.get("act_fault")), "retr_fault": bool(t.get("retr_fault"))} for t in case["turns"]],
+                   "act_fault": bool(t.get("act_fault")), "retr_fault": bool(t.get("retr_fault")),
+                   # the rails enabled for THIS call (1.0 generation options)
+                   "no_in": not eff_in(case, t) and bool(eff_in(case)), "no_out": not eff_out(case, t) and bool(eff_out(case))} for t in case["turns"]],
     }]
 
 
@@ -223,6 +493,31 @@ def compare(case, obs, mouts):
                 return where + f"model exception event {mr['exc']}, implementation {rep['exc']}"
     if len(obs["turns"]) != len(m["turns"]) and not any(o["raised"] for o in obs["turns"]):
         return f"implementation ran {len(obs['turns'])} turns, model {len(m['turns'])}"
+    if len(mouts) > 1:
+        return compare_ctx(case, obs, mouts[1])
+    return None
+
+
+def compare_ctx(case, obs, m):
+    """Event-level model of the two contexts (as-is `slide` / `_process_start_action`) against the recorded ACTION PARAMETERS:
+    the text every rail action was given (context / `text=` parameter; pure rails: the flow's view) and the uttered script."""
+    if "turns" not in m:
+        return f"ctx model answered {m}"
+    for k, (o, mt) in enumerate(zip(obs["turns"], m["turns"])):
+        if o["raised"]:
+            break
+        where = f"turn {k + 1} (two-context model): "
+        for kind, key in (("in", "in_calls"), ("out", "out_calls")):
+            got = [[s[2], s[3]] for s in rail_calls(o, kind)]
+            if got != mt[key]:
+                return where + f"{kind}put rail calls (id, text shown) differ: impl {got} model {mt[key]}"
+        rep = o["reply"]
+        if mt["uttered"] is not None and not rep["exc"] and (rep["role"] != "assistant" or rep["content"] != mt["uttered"]):
+            return where + f"model utters {mt['uttered'][:120]!r}, implementation replied {json.dumps(rep)[:200]}"
+        if mt["user_msg"] is not None:
+            for s in o["steps"]:
+                if s[0] == "llm" and s[1] != "generate_next_steps" and sentinel(mt["user_msg"]) not in s[2]:
+                    return where + f"LLM call {s[1]}: the text of UserMessage in the model ({mt['user_msg'][:60]!r}) is not in the prompt"
     return None
 
 
@@ -259,7 +554,7 @@ def reply_text(rep):
 
 def tags(case, obs):
     t = [f"ver:{case['ver']}", f"dialog:{int(bool(case['dialog']))}", f"exc:{int(bool(case['exc']))}", f"n_in:{len(eff_in(case))}", f"n_out:{len(eff_out(case))}", f"selfcheck:{int(bool(case.get('sc')))}",
-         f"turns:{len(case['turns'])}", f"carry:{case.get('carry')}", f"gen:{case.get('gen', 'std') if case['ver'] == '1.0' else '2.x'}", f"front:{int(bool(case.get('front')))}"]
+         f"turns:{len(case['turns'])}", f"carry:{case.get('carry')}", f"trail:{case.get('trail') or '-'}", f"gen:{case.get('gen', 'std') if case['ver'] == '1.0' else '2.x'}", f"front:{int(bool(case.get('front')))}"]
     if case["ver"] == "2.x" and not case["dialog"]:
         t.append("usaid:" + case.get("usaid", "something"))
     for tc, to in zip(case["turns"], obs["turns"]):
@@ -286,6 +581,9 @@ def tags(case, obs):
         if tc.get("retr_fault") and any(s[0] == "act" and s[1] == "retrieve" for s in to["steps"]):
             t.append("retrieve-action-fault")
         t.append("intent:" + tc.get("intent", "free"))
+        if case["ver"] == "1.0":
+            o = tc.get("opts")
+            t.append("opts:" + ("-" if o is None else ("in" if o.get("input", True) else "") + ("out" if o.get("output", True) else "") or "none"))
     return t
 
 
@@ -317,12 +615,16 @@ def shrink(case):
         for key in ("act_fault", "retr_fault"):
             if t.get(key):
                 yield dict(case, turns=ts[:i] + [dict(t, **{key: False})] + ts[i + 1:])
+        if t.get("opts") is not None and t["opts"] != OPTS["all"]:
+            yield dict(case, turns=ts[:i] + [dict(t, opts=OPTS["all"])] + ts[i + 1:])
     for key in ("in", "out"):
         l = case[key]
         for i in range(len(l)):
             yield dict(case, **{key: l[:i] + l[i + 1:]})
     if case.get("front"):
         yield dict(case, front=False)
+    if case.get("trail"):
+        yield dict(case, trail=None)
     if case["dialog"] and case["ver"] == "1.0" and case.get("gen") != "single":
         yield dict(case, dialog=False)
     if case["ver"] == "1.0" and case.get("gen", "std") not in ("std",):
@@ -378,6 +680,12 @@ SIG_FRESH = "v1-stateless-history-fault-resumes-earlier-turn"
 SIG_STALE = "v1-stale-context-after-hidden-turn"
 SIG_FLAG = "v2-output-rails-skipped-after-abort"
 SIG_SC = "self-check-output-continues-after-exception"
+SIG_TRAIL = "v1-trailing-message-bypasses-input-rails"
+
+
+def trailing_message_request(case, obs, k):
+    """Colang 1.0 and the failing turn's request had a non-user message AFTER the new user message"""
+    return case["ver"] == "1.0" and bool(case.get("trail")) and k is not None
 
 
 def selfcheck_output_blocked_in_exception_mode(case, obs, k):
@@ -388,12 +696,14 @@ def selfcheck_output_blocked_in_exception_mode(case, obs, k):
     return any(s[2] == SC_ID and verdict_of(tc, "out", SC_ID) == "r" for s in rail_calls(to, "out"))
 
 
-def region_signature(case, obs, msg, oracle_codes_stale=(), oracle_codes_flag=(), oracle_codes_sc=(), oracle_codes_fresh=()):
+def region_signature(case, obs, msg, oracle_codes_stale=(), oracle_codes_flag=(), oracle_codes_sc=(), oracle_codes_fresh=(), oracle_codes_trail=()):
     """Structural signature of a failing case: which recorded defect region (if any) it lies in.
     `msg` starts with "turn N: [code] …" for oracle failures; comparison failures carry no code."""
     k = failing_turn(msg)
     m = _re.match(r"turn \d+: \[([a-z-]+)\]", msg or "")
     code = m.group(1) if m else None
+    if trailing_message_request(case, obs, k) and oracle_codes_trail and (code is None or code in oracle_codes_trail):
+        return SIG_TRAIL
     if selfcheck_output_blocked_in_exception_mode(case, obs, k) and code is not None and code in oracle_codes_sc:
         return SIG_SC
     if stateless_fault_turn(case, obs, k) and (code is None or code in oracle_codes_fresh):
